@@ -249,21 +249,100 @@ theorem html_wrapped (kids : List Node) :
     docHTML none (.elem wrapperName AttrState.empty false kids) = htmlL kids := by
   simp [docHTML, Node.innerHTML]
 
-/-- **C02f (partial).** `addStartTag` at character level: when the text starts with newlines, then blanks,
-    then a doctype declaration as the tokenizer delimits it (`<!doctype` in any letter case, up to the first
-    `>`), the wrapper start tag is placed directly after that declaration — which is where the token-level
-    `wrapToks` places it.  Not proved: the complementary case (no such prefix ⇒ the wrapper goes in front), and
-    the composition `lexStrict (wrapStr (renderToks ts)) = some (wrapToks ts)`; both are covered by the `wrap`
-    cases of the stream, which compare `wrapStr` with the real `addStartTag`. -/
+/-! #### C02f — `addStartTag` at character level
+
+  `DoctypeSplit s p rest` (Lemmas/WrapStr.lean) is the explicit reading of `DOCTYPE_MATCH.match`: `s = p ++ rest`,
+  `p` = newlines, then blanks, then `<!doctype…>` (any letter case) up to its *first* `>`.
+  `startsWithDoctype s` is the decidable reading of "there is such a split" (`startsWithDoctype_iff`). -/
+
+/-- **C02f, first case.** The text starts as `DOCTYPE_MATCH` reads it: the wrapper start tag goes directly after
+    the matched prefix. -/
+theorem addStartTag_after_doctype (s p rest : Str) (h : DoctypeSplit s p rest) :
+    wrapStr s = p ++ wrapOpen ++ rest ++ wrapClose := by
+  rw [wrapStr_eq]
+  unfold addStartTagStr
+  rw [doctypePrefix_of_split s p rest h]
+
+/-- **C02f, complementary case.** The text does not start with newlines, blanks, `<!doctype…>` (decidable
+    reading): the wrapper start tag goes in front of everything. -/
+theorem addStartTag_no_doctype (s : Str) (h : startsWithDoctype s = false) :
+    wrapStr s = wrapOpen ++ s ++ wrapClose := by
+  rw [wrapStr_eq]
+  unfold addStartTagStr
+  rw [doctypePrefix_none_of_not s h]
+
+/-- the same with the explicit reading -/
+theorem addStartTag_no_doctype' (s : Str) (h : ¬ DoctypeStart s) :
+    wrapStr s = wrapOpen ++ s ++ wrapClose := by
+  apply addStartTag_no_doctype
+  cases hb : startsWithDoctype s with
+  | false => rfl
+  | true => exact absurd ((startsWithDoctype_iff s).mp hb) h
+
+/-- first case of the dichotomy: the text splits (in exactly one way) and the wrapper follows the prefix -/
+def AfterDoctype (s : Str) : Prop :=
+  ∃ p rest, DoctypeSplit s p rest ∧ (∀ p' rest', DoctypeSplit s p' rest' → p' = p ∧ rest' = rest) ∧
+    wrapStr s = p ++ wrapOpen ++ rest ++ wrapClose
+
+/-- second case: no split, the wrapper is in front -/
+def InFront (s : Str) : Prop := ¬ DoctypeStart s ∧ wrapStr s = wrapOpen ++ s ++ wrapClose
+
+/-- **C02f, dichotomy.** Every text falls in exactly one of the two cases, with the explicit result in each;
+    which one is decided by `startsWithDoctype`. -/
+theorem addStartTag_cases (s : Str) :
+    (AfterDoctype s ∨ InFront s) ∧ ¬ (AfterDoctype s ∧ InFront s) ∧
+    (AfterDoctype s ↔ startsWithDoctype s = true) ∧ (InFront s ↔ startsWithDoctype s = false) := by
+  have hA : startsWithDoctype s = true → AfterDoctype s := by
+    intro hb
+    obtain ⟨p, rest, hsp⟩ := (startsWithDoctype_iff s).mp hb
+    exact ⟨p, rest, hsp, fun p' rest' h' => doctypeSplit_unique s p rest p' rest' hsp h',
+      addStartTag_after_doctype s p rest hsp⟩
+  have hA' : AfterDoctype s → startsWithDoctype s = true := by
+    rintro ⟨p, rest, hsp, _, _⟩
+    exact (startsWithDoctype_iff s).mpr ⟨p, rest, hsp⟩
+  have hB : startsWithDoctype s = false → InFront s := by
+    intro hb
+    refine ⟨fun hd => ?_, addStartTag_no_doctype s hb⟩
+    rw [(startsWithDoctype_iff s).mpr hd] at hb
+    exact absurd hb (by simp)
+  have hB' : InFront s → startsWithDoctype s = false := by
+    rintro ⟨hn, _⟩
+    cases hb : startsWithDoctype s with
+    | false => rfl
+    | true => exact absurd ((startsWithDoctype_iff s).mp hb) hn
+  refine ⟨?_, ?_, ⟨hA', hA⟩, ⟨hB', hB⟩⟩
+  · cases hb : startsWithDoctype s with
+    | true => exact Or.inl (hA hb)
+    | false => exact Or.inr (hB hb)
+  · rintro ⟨ha, hb⟩
+    have h1 := hA' ha
+    rw [hB' hb] at h1
+    exact absurd h1 (by simp)
+
+/-- the earlier, partial form of the first case (kept under its name; now a corollary) -/
 theorem addStartTag_after_doctype_partial (nl bl d rest : Str)
     (hnl : ∀ x ∈ nl, isNl x = true) (hbl : ∀ x ∈ bl, isBl x = true)
     (hd : lower (d.take 7) = "doctype".toList) (hgt : '>' ∉ d) :
     wrapStr (nl ++ bl ++ ('<' :: '!' :: d ++ '>' :: rest))
       = nl ++ bl ++ ('<' :: '!' :: d ++ ['>']) ++ ('<' :: wrapperName ++ ['>']) ++ rest
           ++ ('<' :: '/' :: wrapperName ++ ['>']) := by
-  unfold wrapStr addStartTagStr
-  rw [doctypePrefix_decl nl bl d rest hnl hbl hd hgt]
+  have h : DoctypeSplit (nl ++ bl ++ ('<' :: '!' :: d ++ '>' :: rest)) (nl ++ bl ++ ('<' :: '!' :: d ++ ['>'])) rest :=
+    ⟨nl, bl, d, hnl, hbl, hd, hgt, rfl, by simp⟩
+  exact addStartTag_after_doctype _ _ _ h
 
+/-! non-vacuity: both cases occur; white space in the wrong order, a declaration without `>`, a comment and the
+    empty text are "no doctype" -/
+example : DoctypeSplit "\n  <!DOCTYPE html><a></a>x".toList "\n  <!DOCTYPE html>".toList "<a></a>x".toList :=
+  ⟨"\n".toList, "  ".toList, "DOCTYPE html".toList, by decide, by decide, by decide, by decide, rfl, rfl⟩
+example : startsWithDoctype "\n  <!DOCTYPE html><a></a>x".toList = true := by decide
+example : startsWithDoctype " \n<!DOCTYPE html><a></a>".toList = false := by decide
+example : startsWithDoctype "<!DOCTYPE html".toList = false := by decide
+example : startsWithDoctype "<!-- c --><a></a><b></b>".toList = false := by decide
+example : startsWithDoctype [] = false := by decide
+example : InFront "<a></a><b></b>".toList :=
+  ((addStartTag_cases _).2.2.2).mpr (by decide)
+example : AfterDoctype "<!doctype html><a></a><b></b>".toList :=
+  ((addStartTag_cases _).2.2.1).mpr (by decide)
 example : wrapStr "\n  <!DOCTYPE html><a></a>x".toList = "\n  <!DOCTYPE html><xxxblank><a></a>x</xxxblank>".toList := by decide
 example : wrapStr " \n<!DOCTYPE html><a></a>".toList = "<xxxblank> \n<!DOCTYPE html><a></a></xxxblank>".toList := by decide
 
